@@ -153,3 +153,24 @@ package index
 //@   loop 1:
 //@     invariant 0 <= left && left < 100
 //@     invariant !filename ==> len(data) >= 4 * left
+
+// ---------------------------------------------------------------------------
+// C01/C02: when the \bLITERAL\b fast path may stand in for the regexp engine
+// ---------------------------------------------------------------------------
+
+//@ pure func wordChar(c int) bool = (c >= 97 && c <= 122) || (c >= 65 && c <= 90) || (c >= 48 && c <= 57) || c == 95
+//@ func index.characterClass
+//@   ensures result == wordChar(c)
+//@   assigns nothing
+
+// A wordMatchTree is only built for a case-sensitive query whose literal does
+// not fold case either (the flag may sit on the literal: \b(?i:foo)\b) and
+// whose literal starts and ends with a word character - the only literals for
+// which "no word character directly before and after the occurrence" is what
+// \b...\b means.
+//@ func index.regexpToWordMatchTree
+//@   may_panic
+//@   assert at alloc:wordMatchTree: q.CaseSensitive
+//@   assert at alloc:wordMatchTree: (q.Regexp.Flags & 1) == 0
+//@   assert at alloc:wordMatchTree: (q.Regexp.Sub[1].Flags & 1) == 0
+//@   assert at alloc:wordMatchTree: len(word) > 0 && wordChar(word[0]) && wordChar(word[len(word)-1])
